@@ -22,7 +22,7 @@ fn reversible(p: &Pos, m: &Mv) -> bool {
 
 /// Builds the move list: prefix + cycles*(a,b,a',b') + (a,b,a').  Returns moves and the would-be
 /// closing move b'.
-fn build_history(s: &mut Src, start: &Pos) -> Option<(Vec<Mv>, Pos)> {
+pub fn build_history(s: &mut Src, start: &Pos) -> Option<(Vec<Mv>, Pos)> {
     let prefix = gen::ply_count(s, 40);
     let (steps, x) = gen::playout(s, start, prefix);
     let mut moves: Vec<Mv> = steps.iter().map(|t| t.1).collect();
@@ -73,6 +73,29 @@ fn build_history(s: &mut Src, start: &Pos) -> Option<(Vec<Mv>, Pos)> {
             }
         }
     }
+    // long reversible excursion (out and back, 4n-1 plies): the earlier occurrences become OLD —
+    // up to ~180 plies before the root, still inside what the 75-move rule allows
+    if cycles >= 1 && s.chance(35) {
+        let n = *s.pick(&[2usize, 5, 13, 26, 27, 30, 38, 45]);
+        let mut found = None;
+        for _ in 0..4 {
+            if let Some(ex) = excursion(s, &p, n) {
+                found = Some(ex);
+                break;
+            }
+        }
+        if let Some(ex) = found {
+            let mut all = moves.clone();
+            all.extend(ex);
+            if max_occurrences(start, &all) <= 4 {
+                let mut q = p.clone();
+                for m in &all[moves.len()..] {
+                    q = q.make(*m);
+                }
+                return Some((all, q));
+            }
+        }
+    }
     // partial cycle: stop 0..3 plies into the next cycle
     let partial = s.weighted(&[10, 15, 15, 60]);
     for m in [a, b, ar].iter().take(partial) {
@@ -83,6 +106,78 @@ fn build_history(s: &mut Src, start: &Pos) -> Option<(Vec<Mv>, Pos)> {
         moves.push(*m);
     }
     Some((moves, p))
+}
+
+/// Out-and-back excursion from `x`: n reversible moves per side, then undone in reverse order,
+/// except for the very last undo (which would bring `x` about again).  Verified with the reference.
+fn excursion(s: &mut Src, x: &Pos, n: usize) -> Option<Vec<Mv>> {
+    let mut out: Vec<Mv> = Vec::new();
+    let mut p = x.clone();
+    let mut last_from: [Option<u8>; 2] = [None, None];
+    for i in 0..2 * n {
+        let side = i % 2;
+        let prev_other_from = if i > 0 { Some(out[i - 1].from) } else { None };
+        let cands: Vec<Mv> = p
+            .legal_moves()
+            .into_iter()
+            .filter(|m| reversible(&p, m) && Some(m.to) != last_from[side] && Some(m.to) != prev_other_from && !p.make(*m).in_check())
+            .collect();
+        if cands.is_empty() {
+            if std::env::var("VERIF_DEBUG").is_ok() { eprintln!("excursion: no candidates at step {} of {}", i, 2*n); }
+            return None;
+        }
+        let m = cands[s.below(cands.len())];
+        last_from[side] = Some(m.from);
+        p = p.make(m);
+        out.push(m);
+    }
+    // undo: A takes back o_n, B takes back p_n, ..., A takes back o_1 — all but B's p_1
+    let mut seq = out.clone();
+    let mut undo: Vec<Mv> = Vec::new();
+    for i in (0..n).rev() {
+        undo.push(out[2 * i]);
+        undo.push(out[2 * i + 1]);
+    }
+    let closing = undo.pop().unwrap();
+    for m in undo.iter() {
+        let r = Mv { from: m.to, to: m.from, promo: None };
+        if !p.legal_moves().contains(&r) {
+            if std::env::var("VERIF_DEBUG").is_ok() { eprintln!("excursion: undo {} illegal (n={})", r.uci(), n); }
+            return None;
+        }
+        p = p.make(r);
+        seq.push(r);
+    }
+    // the closing move must bring x about again
+    let close = Mv { from: closing.to, to: closing.from, promo: None };
+    if !p.legal_moves().contains(&close) || p.make(close) != *x {
+        if std::env::var("VERIF_DEBUG").is_ok() { eprintln!("excursion: close fails (n={})", n); }
+        return None;
+    }
+    if std::env::var("VERIF_DEBUG").is_ok() { eprintln!("excursion: ok n={}", n); }
+    Some(seq)
+}
+
+fn max_occurrences(start: &Pos, moves: &[Mv]) -> usize {
+    let mut h = vec![start.clone()];
+    let mut p = start.clone();
+    for m in moves {
+        p = p.make(*m);
+        h.push(p.clone());
+    }
+    let mut keys: Vec<String> = h.iter().map(|x| x.fen4()).collect();
+    keys.sort();
+    let mut best = 0;
+    let mut run = 0;
+    for i in 0..keys.len() {
+        if i > 0 && keys[i] == keys[i - 1] {
+            run += 1;
+        } else {
+            run = 1;
+        }
+        best = best.max(run);
+    }
+    best
 }
 
 struct Cmd {
@@ -238,6 +333,11 @@ fn check(bytes: &[u8], stats: &mut Stats) -> Verdict {
     }
     if any_draw {
         stats.class("has_successor_seen_twice_or_more");
+    }
+    if last_cmd.history.len() > 101 {
+        stats.class("history_longer_than_100_plies");
+        let oldest = legal.iter().filter_map(|m| { let sx = p.make(*m); last_cmd.history.iter().rposition(|h| *h == sx).map(|i| last_cmd.history.len() - i) }).max();
+        if let Some(o) = oldest { if o > 100 { stats.class("repeated_successor_last_seen_more_than_100_plies_ago"); } }
     }
     if discriminating {
         stats.class("discriminating_draw_rule_changes_value");
